@@ -451,6 +451,10 @@ def check(rep, tier, seed):
         rep.add(Query(qn, "holds", "", 0, "mirsym+z3", key="C16.query.zero-tick"))
     else:
         rep.add(Query(qn, "violated", "z3 model on handler path %d: %s" % (zero[0], zero[1]), zero[2], "mirsym+z3", key="C16.query.zero-tick", model=zero[1], reproduced=None))
+    # the wrappers the task sequences are written in terms of
+    for fn, variant, arg in (("update_one_state", "UpdateState", 1), ("reset_one_state", "ResetState", 1), ("get_state", "GetState", None),
+                             ("set_provision_finished", "SetProvisionFinished", 1), ("get_provision_finished", "GetProvisionFinished", None)):
+        wrapper_variant_unit(rep, ctx, "ProvisionSharedState", fn, variant, "C16.wrapper:" + fn, payload_arg=arg)
     rep.assumptions += ["the provision actor processes one message at a time", "the clock is strictly increasing between actor messages", "Future::poll returns Ready"]
     rep.outside_claim += ["two concurrent writers of status.tag.tmp", "more than one reset / query in flight"]
     rep.trusted += ["mirsym", "z3"]
